@@ -322,7 +322,7 @@ def parseInst (m : FTok) (v : String) : P Node := do
     | "Ret" => do pure (.jumpLinkR (wi "Jalr" m) (x0 m) (x1 m) (imm0 m) (← rawNow))
     | "Mv" => do
       let rd ← getReg; let rs1 ← getReg
-      pure (.arith (wi "Add" m) rd rs1 (x0 m) (← rawNow))
+      pure (.iarith (wi "Addi" m) rd rs1 (imm0 m) (← rawNow))
     | "Li" => do
       let rd ← getReg; let imm ← getImm
       pure (.iarith (wi "Addi" m) rd (x0 imm.tok) imm (← rawNow))
